@@ -45,8 +45,17 @@ def random_history(rng, mod, kind, length):
     for _ in range(length):
         choices = ["insert", "insert", "delchan", "set", "group", "record", "delrecs", "stim", "clamp", "delstim", "delclamp", "train", "deltrain"]
         if kind == "net":
-            choices += ["connect", "connect", "recsyn", "clampsyn", "delclampsyn"]
+            choices += ["connect", "connect", "connect", "recsyn", "clampsyn", "clampsyn", "delclampsyn"]
         op = str(rng.choice(choices))
+        # follow-ups that need a specific predecessor (second clamp on the same synaptic state, deletion of a clamp through a view)
+        if ops and rng.random() < 0.6:
+            last = ops[-1].split()[0] + (":syn" if " es=" in ops[-1] and "key=" in ops[-1] and not ops[-1].split("key=")[1].split()[0] in ("i", "v") else "")
+            if last == "ext:syn":
+                op = str(rng.choice(["clampsyn", "delclampsyn"]))
+            elif last == "ext":
+                op = str(rng.choice(["delstim", "delclamp", "stim", "clamp"]))
+            elif last == "insert":
+                op = str(rng.choice(["delchan", "record", "insert"]))
         rows = rows_of(rng, n)
         view = mod.select(nodes=rows)
         es_in_view = [int(e) for e in view._edges_in_view]
@@ -172,10 +181,23 @@ def invariant(R, mod, desc):
         if ch.current_name not in mod.membrane_current_names:
             bad(f"currents: {ch.current_name} of present channel {ch._name} missing from membrane_current_names")
     comp_states, edge_states = mod._get_state_names()
+    builtin_states = {s for c in CHANS.values() for s in list(c().channel_states) + [c().current_name]}
+    dangling = False
     for i, s in zip(mod.recordings.rec_index.tolist() if len(mod.recordings) else [], mod.recordings.state.tolist() if len(mod.recordings) else []):
         lim = n if s in comp_states else len(mod.edges)
-        if not (0 <= i < lim) or s not in comp_states + edge_states:
+        if s not in comp_states + edge_states and s in builtin_states:
+            # the state belonged to a channel that has been deleted: known finding N13
+            dangling = True
+            R.known_confirmed.append("N13")
+            R.spec_fail(dict(kind="dangling-reference-after-delete_channel", what="recordings"), f"recording ({i},{s}) survives the deletion of its channel", desc, None)
+        elif not (0 <= i < lim) or s not in comp_states + edge_states:
             bad(f"recordings: ({i},{s}) does not refer to an existing row/state")
+    for k in mod.external_inds:
+        if k not in comp_states + edge_states and k in builtin_states:
+            dangling = True
+            R.known_confirmed.append("N13b")
+            R.spec_fail(dict(kind="dangling-reference-after-delete_channel", what="externals"), f"clamp of {k} survives the deletion of its channel", desc, None)
+    desc["_dangling"] = dangling
     for k, inds in mod.external_inds.items():
         lim = len(mod.edges) if k in edge_states else n
         if np.any(np.asarray(inds) >= lim) or len(inds) != len(mod.externals[k]):
@@ -200,7 +222,7 @@ def run(args):
     R = Result("C19")
     rng = np.random.default_rng([args.seed, 19])
     drv = LeanDriver()
-    nh = {"quick": 40, "thorough": 600}[args.tier] * (3 if args.mode == "search" else 1)
+    nh = {"quick": 70, "thorough": 1200}[args.tier] * (3 if args.mode == "search" else 1)
     maxlen = {"quick": 12, "thorough": 30}[args.tier]
     R.rule = ("random histories (<= 12 ops quick, <= 30 thorough) over the alphabet on random row/edge selections of irregular cells and "
               "networks; α compared after every op. distinct = distinct op-kind sequences; non-trivial = >= 4 accepted ops incl. a deletion")
@@ -222,6 +244,8 @@ def run(args):
         invariant(R, mod, desc)
         # integrate simulates the tables: run, and compare with a module rebuilt from (a deep copy of) the tables
         try:
+            if h % 8 != 0 or desc.get("_dangling"):          # the (expensive) simulation is run after every 8th history
+                raise StopIteration
             if not len(mod.recordings):
                 mod.select(nodes=[0]).record("v", verbose=False)
             if "v" in mod.externals and mod.externals["v"].shape[1] < 3:
@@ -233,6 +257,8 @@ def run(args):
                 R.spec_fail(dict(kind="integrate-not-function-of-tables"), "a deep copy of the module simulates differently", desc, None)
             if not np.all(np.isfinite(r1)):
                 R.count("diag:nonfinite-simulation")
+        except StopIteration:
+            pass
         except Exception as ex:
             R.spec_fail(dict(kind="integrate-fails-after-history", err=type(ex).__name__), f"integrate fails after an accepted history: {type(ex).__name__}: {str(ex)[:150]}", desc, repr(ex)[:300])
         if len(R.samples) < 3:
@@ -260,6 +286,12 @@ def run(args):
         R.evaluations += 1
         if alpha(mod) != a0:
             R.spec_fail(dict(kind="delete-does-not-undo-insert", chan=ch._name), f"insert({ch._name}); delete_channel({ch._name}) does not restore the tables", dict(kind=kind, rows=rows, present=[c._name for c in pre]), diff_summary(alpha(mod), a0))
+    # -------- witnesses of the open known findings N13 / N13b (replayed on every run)
+    comp = jx.Compartment()
+    w = jx.Cell([jx.Branch([comp] * 2)], parents=[-1])
+    w.insert(HH()); w.record("HH_n", verbose=False); w.clamp("HH_m", jnp.ones(3) * 0.3, verbose=False); w.delete_channel(HH())
+    R.evaluations += 1
+    invariant(R, w, dict(witness="insert(HH); record('HH_n'); clamp('HH_m'); delete_channel(HH)"))
     R.explanation = "pure state machine with invariant theorems (Props/C19.lean); α(module) compared with the model after every operation"
     R.assumptions = ["views are given as explicit row/edge selections (view resolution is property C11)", "make_trainable index groups are taken from the implementation (their construction is property C10)"]
     R.extra["driver_lines"] = drv.lines
